@@ -82,5 +82,7 @@ for d in sorted(os.listdir(sd)):
         now = "?" if r is None else ("caught" + (" (correspondence only)" if r["violation_lines"] and "no-failing-input-found" in r["violation_lines"][0] else "") if r["caught"] else "MISSED")
     out.append("| %s | %s | %s | %s | %s |" % (d, m["property"], touches, first.get(d, "caught"), now))
 out += ["", open(os.path.join(V, "notes/DESIGN_tail.md")).read().rstrip(), ""]
-open(os.path.join(V, "DESIGN.md"), "w").write("\n".join(out) + "\n")
+text = "\n".join(out) + "\n"
+text = text.replace("@@NSIG@@", str(len(fixed) + len(known))).replace("@@NKNOWN@@", str(len(known))).replace("@@NCOMMIT@@", str(len({f[2] for f in fixed})))
+open(os.path.join(V, "DESIGN.md"), "w").write(text)
 print("DESIGN.md lines:", len("\n".join(out).split("\n")))
